@@ -161,6 +161,8 @@ func VxC13TreePoint() {
 		return nil
 	})
 	vxReach("point")
+	vxObserve("point-hits", got)
+	vxObserve("tree-size", tree.Size())
 	vxAssert(sound, "point-sound")
 	vxAssert(got == want, "point-count")
 }
